@@ -9,7 +9,7 @@ namespace Avo.Drv.C08
 open Avo Avo.Drv Avo.Instr Avo.Mov
 
 def F : Flags := ⟨Avo.Gen.tIsBoolean, Avo.Gen.tIsInteger, Avo.Gen.tIsUnsigned, Avo.Gen.tIsFloat⟩
-def rows : List RRow := Avo.Gen.mov.map resolve
+def tab : List TabGroup := Avo.Gen.movTab
 
 def dirOf : String → Option Dir
   | "load" => some .load
@@ -31,60 +31,67 @@ def opcOfName (s : String) : Option Nat :=
 
 def bytesOfHex (s : String) : Option (List Nat) := unhex s
 
-def leNat (bs : List Nat) : Nat := bs.foldr (fun b acc => acc * 256 + b) 0
-
-def leBytes (n k : Nat) : List Nat := (List.range k).map (fun i => (n >>> (8 * i)) % 256)
-
-/-- sign- or zero-extension of the `w`-byte little-endian value `v` to `k` bytes -/
-def extend (e : Ext) (v w k : Nat) : Nat :=
-  match e with
-  | .sign => if w > 0 && (v >>> (8 * w - 1)) % 2 == 1 then v + ((2 ^ (8 * k) - 1) - (2 ^ (8 * w) - 1)) else v
-  | _ => v
-
-/-- Go's conversion of a component of type flags `t` (value `v`, `t.size` bytes)
-to the width `k` of a general-purpose register -/
-def goConvert (t : TypeInfo) (v k : Nat) : Nat :=
-  if isSigned F t then extend .sign v t.size k else v
-
 /-- where the value sits in the 64-byte register image: high-byte registers
 (mask 2) hold it in byte 1 -/
 def regOffset (r : RegV) : Nat := if r.kind == kindGP && r.mask == 2 then 1 else 0
 
+/-- the verdict of `acceptSel` with the reason spelled out -/
 def judgeSel (d : Dir) (t : TypeInfo) (r : RegV) (outcome : List String) : String :=
   match outcome with
-  | ["error"] => if mustMove F d t r then "bad-error-where-a-move-exists" else "ok"
+  | ["error"] => if acceptSel F d t r none then "ok" else "bad-error-where-a-move-exists"
   | ["op", name] =>
     match opcOfName name with
     | none => "bad-unmodelled-opcode " ++ name
     | some opc =>
+      if acceptSel F d t r (some opc) then "ok" else
       match movSem opc r with
       | none => "bad-unmodelled-opcode " ++ name
       | some s =>
         if s.memWidth != t.size then s!"bad-width access={s.memWidth} component={t.size}"
-        else if semOK F d t r s then "ok" else s!"bad-extension {extName s.ext} to {s.regBytes}"
+        else s!"bad-extension {extName s.ext} to {s.regBytes}"
   | _ => "bad-outcome " ++ joinSp outcome
-
-def splitAtArrow : List String → List String → Option (List String × List String)
-  | _, [] => none
-  | acc, "=>" :: rest => some (acc.reverse, rest)
-  | acc, t :: rest => splitAtArrow (t :: acc) rest
 
 def kv (pref : String) (tok : String) : Option String :=
   if tok.startsWith pref then some ((tok.drop pref.length).toString) else none
+
+/-- `lo:hi:cnt` -/
+def depOf (s : String) : Option (Nat × Nat × Nat) :=
+  match s.splitOn ":" with
+  | [a, b, c] => do
+    -- lo is -1 when the register depends on no memory byte
+    let lo := (a.toNat?).getD 1000000
+    let hi ← b.toNat?; let cnt ← c.toNat?
+    some (lo, hi, cnt)
+  | _ => none
+
+/-- go vet's asmdecl guesses the access width of an instruction it does not know from the opcode's last letter
+("D" = 8 bytes); for the 4-byte moves `KMOVD`, `VMOVD`, `MOVD` that guess is wrong (the CPU measurement of these
+opcodes on every run says 4).  Every other width diagnostic of vet on the instruction under test stands. -/
+def vetMisjudges (name : String) (t : TypeInfo) (r : RegV) : Bool :=
+  (name == "KMOVD" || name == "VMOVD" || name == "MOVD") && t.size == 4 &&
+    (match opcOfName name with
+     | some opc => (match movSem opc r with | some s => s.memWidth == 4 | none => false)
+     | none => false)
 
 def handle : Handler
   | ["mov", d, ti, ts, m, r] => do
     let d ← dirOf d; let ti ← ti.toNat?; let ts ← ts.toNat?
     let m ← C06.parseOp m; let r ← C06.parseOp r; let rv ← regOf r
-    match loadStore rows d m rv ⟨0, ti, ts⟩ with
-    | none => some "error"
-    | some opc => some ("op " ++ Name.toStr opc)
+    -- what the implementation did for the class of this input when the table was made (start of this run)
+    match behave tab d ⟨0, ti, ts⟩ rv m with
+    | none => some "untabulated"
+    | some none => some "error"
+    | some (some opc) => some ("op " ++ Name.toStr opc)
   | "accept-movsel" :: d :: _tname :: _rc :: ti :: ts :: r :: "=>" :: outcome => do
     let d ← dirOf d; let ti ← ti.toNat?; let ts ← ts.toNat?
     let r ← C06.parseOp r; let rv ← regOf r
     some (judgeSel d ⟨0, ti, ts⟩ rv outcome)
   | ["accept-cpu-run", _] => some "bad-measurement-program-could-not-be-generated-built-or-run"
   | ["accept-nonprim", _, _, outcome] => some (if outcome == "error" then "ok" else "bad-nonprimitive-component-moved")
+  | ["accept-vet", d, _tname, _rc, ti, ts, r, name, _msg] => do
+    let _ ← dirOf d; let ti ← ti.toNat?; let ts ← ts.toNat?
+    let r ← C06.parseOp r; let rv ← regOf r
+    some (if vetMisjudges name ⟨0, ti, ts⟩ rv then "ok" else s!"bad-width vet-asmdecl-diagnostic component={ts}")
   -- model of the instruction on the CPU: register image after a load
   | ["cpu-load", name, r, mem] => do
     let r ← C06.parseOp r; let rv ← regOf r
@@ -106,35 +113,36 @@ def handle : Handler
     let s ← movSem opc rv
     some (hex (reg.take s.memWidth ++ mem.drop s.memWidth))
   -- the property on what the CPU did
-  | "accept-cpu" :: d :: _tname :: _rc :: ti :: ts :: r :: rest => do
+  | "accept-cpu" :: d :: _tname :: _rc :: ti :: ts :: r :: _opc :: off :: rest => do
     let d ← dirOf d; let ti ← ti.toNat?; let ts ← ts.toNat?
     let r ← C06.parseOp r; let rv ← regOf r
+    let off ← (← kv "off=" off).toNat?
     let t : TypeInfo := ⟨0, ti, ts⟩
     match d, rest with
-    | .load, [_opc, v, reg, gox, dep] =>
+    | .load, [v, reg, gox, dep] =>
       -- v: component bytes; reg: register image (64 bytes); gox: what Go's own conversion gives (register width);
-      -- dep: number of leading memory bytes the register depends on
+      -- dep: first / one past last / number of memory bytes the register depends on
       let v ← bytesOfHex ((← kv "v=" v)); let reg ← bytesOfHex ((← kv "reg=" reg)); let gox ← bytesOfHex ((← kv "go=" gox))
-      let dep ← (← kv "dep=" dep).toNat?
-      let off := regOffset rv
-      if dep != ts then some s!"bad-width access={dep} component={ts}" else
+      let (lo, hi, cnt) ← depOf (← kv "dep=" dep)
+      if !(lo == off && hi == off + ts && cnt == ts) then
+        (if lo == off && cnt == hi - lo then some s!"bad-width access={hi - lo} component={ts}"
+         else some s!"bad-width access-bytes={lo}..{hi}/{cnt} component-bytes={off}..{off + ts}") else
       if rv.kind == kindGP then
-        let want := leBytes (goConvert t (leNat v) rv.size) rv.size
-        if (reg.drop off).take rv.size != want then some "bad-value-not-go-conversion"
-        else if gox != want then some "bad-go-oracle-disagrees" else some "ok"
+        if !acceptLoadGP F t rv.size (regOffset rv) off v reg lo hi cnt then some "bad-value-not-go-conversion"
+        else if gox != leBytes (goConvert F t (leNat v) rv.size) rv.size then some "bad-go-oracle-disagrees" else some "ok"
       else
-        if reg.take ts != v then some "bad-low-bytes" else some "ok"
-    | .store, [_opc, src, before, after] =>
+        if !acceptLoadLow ts off v reg lo hi cnt then some "bad-low-bytes" else some "ok"
+    | .store, [src, before, after] =>
       let src ← bytesOfHex ((← kv "src=" src)); let before ← bytesOfHex ((← kv "before=" before))
       let after ← bytesOfHex ((← kv "after=" after))
-      let off := regOffset rv
-      if after.take ts != (src.drop off).take ts then some "bad-stored-bytes"
-      else if after.drop ts != before.drop ts then some s!"bad-width adjacent-bytes-overwritten component={ts}"
-      else some "ok"
+      let src := src.drop (regOffset rv)
+      if acceptStoreBytes ts off src before after then some "ok"
+      else if (after.drop off).take ts != src.take ts then some "bad-stored-bytes"
+      else some s!"bad-width adjacent-bytes-overwritten component={ts}"
     | _, _ => none
   | _ => none
 
 def handlers : List (String × Handler) :=
-  ["mov", "accept-movsel", "accept-nonprim", "accept-cpu-run", "cpu-load", "cpu-store", "accept-cpu"].map (·, handle)
+  ["mov", "accept-movsel", "accept-nonprim", "accept-cpu-run", "accept-vet", "cpu-load", "cpu-store", "accept-cpu"].map (·, handle)
 
 end Avo.Drv.C08
